@@ -66,7 +66,7 @@ def impl_hash():
     return file_hash([os.path.join(HOOKS, "lib", "libuscxml.so.2.0.0"),
                       os.path.join(HOOKS, "lib", "libuscxml_transform.so.2.0.0"),
                       os.path.join(ROOT, "gen"), os.path.join(ROOT, "spec"),
-                      os.path.join(ROOT, "harness"), os.path.join(ROOT, "lib")])
+                      os.path.join(ROOT, "harness"), os.path.join(ROOT, "lib", "campaign.py")])
 
 
 def run_parallel(cmds, nproc=NCPU, timeout=None, env=None):
@@ -117,6 +117,7 @@ VERDICT_RE = re.compile(r'^"VERDICT (.*)"$')
 def parse_tlc(out):
     """returns dict(verdicts, states, distinct, ok, error)"""
     verdicts = []
+    counts = {}
     states = distinct = 0
     ok = False
     err = None
@@ -129,6 +130,13 @@ def parse_tlc(out):
             except Exception as e:  # noqa
                 err = "unparsable verdict: " + line[:200]
             continue
+        if line.startswith('"COUNTS '):
+            try:
+                for name, n in json.loads(json.loads(line)[7:]):
+                    counts[name] = counts.get(name, 0) + n
+            except Exception:
+                pass
+            continue
         mm = re.match(r"^(\d+) states generated, (\d+) distinct states found", line)
         if mm:
             states, distinct = int(mm.group(1)), int(mm.group(2))
@@ -136,7 +144,7 @@ def parse_tlc(out):
             ok = True
         if line.startswith("Error:") and err is None:
             err = line
-    return {"verdicts": verdicts, "states": states, "distinct": distinct, "ok": ok, "error": err}
+    return {"verdicts": verdicts, "counts": counts, "states": states, "distinct": distinct, "ok": ok, "error": err}
 
 
 def write_cfg(path, lines):
